@@ -12,7 +12,7 @@
     raw-pointer writes themselves (unsafe code: exercised by the stress harness only). *)
 From Coq Require Import List Arith Bool Lia.
 Import ListNotations.
-Require Import Verif.Base.Cases.
+Require Import Verif.Base.Res Verif.Base.Cases.
 
 Section Writers.
 Variable items : nat -> list nat.         (* what each call writes *)
@@ -78,6 +78,34 @@ Inductive cvreach : cvst -> Prop :=
 | cvr_init : cvreach cvinit
 | cvr_step s s' : cvreach s -> cvstep s s' -> cvreach s'.
 End CV.
+
+(* ------------------------------------------------------------------------------------------ *)
+(** NotificationList::notify (notification_list.rs:40-56), between two resets: per-id flag,
+    [already_notified] (load), [attempt_notify] (swap true), and only the thread whose swap returned
+    false pushes the id onto the mutex-protected list. The [resize_with] on the ConcurrentVec of
+    flags is the ConcurrentVec/ReadOptimizedLock protocol and is not repeated here. *)
+Inductive npc := NIdle | NChk (k : nat) | NSwap (k : nat) | NPush (k : nat).
+Record nst := nmk {
+  flag : nat -> bool; nlist : list nat; npcs : list npc;
+  called : list nat     (* ghost: ids for which notify was called *)
+}.
+Definition nset (l : list npc) (t : nat) (p : npc) : list npc := Verif.Base.Res.set_nth l t p.
+
+Inductive nstep : nst -> nst -> Prop :=
+| NCall s c k : c < length (npcs s) -> nth c (npcs s) NIdle = NIdle ->
+    nstep s (nmk (flag s) (nlist s) (nset (npcs s) c (NChk k)) (k :: called s))
+| NLoad s c k : nth c (npcs s) NIdle = NChk k ->
+    nstep s (nmk (flag s) (nlist s) (nset (npcs s) c (if flag s k then NIdle else NSwap k)) (called s))
+| NSwp s c k : nth c (npcs s) NIdle = NSwap k ->
+    nstep s (nmk (updf (flag s) k true) (nlist s)
+                 (nset (npcs s) c (if flag s k then NIdle else NPush k)) (called s))
+| NPsh s c k : nth c (npcs s) NIdle = NPush k ->
+    nstep s (nmk (flag s) (k :: nlist s) (nset (npcs s) c NIdle) (called s)).
+
+Definition ninit (n : nat) : nst := nmk (fun _ => false) [] (repeat NIdle n) [].
+Inductive nreach (n : nat) : nst -> Prop :=
+| nr_init : nreach n (ninit n)
+| nr_step s s' : nreach n s -> nstep s s' -> nreach n s'.
 
 (* ------------------------------------------------------------------------------------------ *)
 (** * correspondence case: what the real writer did
